@@ -193,6 +193,32 @@ def oracle_rotate(case):
                                 % (f0.type, f0.location, K % n, f1.location)}
     if recutil.deep_snapshot(rec) != before:
         return {"signature": "C13:input-mutated", "what": "rotation modified its operand"}
+    # the record at the time of the call is the input: rotate, edit the record through the ordinary SeqRecord
+    # API, rotate again by the same amount — the second result must be the rotation of the edited record
+    import copy
+    from Bio.SeqFeature import FeatureLocation
+    op, k = case["ops"][0]
+    rec.id = rec.id + "-edited"
+    rec.name = "edited"
+    rec.annotations["note"] = "edited after the first rotation"
+    if rec.features:
+        f = rec.features[0]
+        a = (int(f.location.start) + 1) % n
+        f.location = FeatureLocation(a, min(n, a + 1), strand=-1)
+        f.qualifiers["label"] = ["moved"]
+    for key in list(rec.letter_annotations):
+        vals = list(rec.letter_annotations[key])
+        rec.letter_annotations[key] = vals[1:] + vals[:1]
+    fresh = recutil.mk_record(recutil.to_json(rec)) if hasattr(recutil, "to_json") else copy.deepcopy(rec)
+    try:
+        second = _apply(rec, [(op, k)])
+        expect = _apply(fresh, [(op, k)])
+    except Exception as e:  # noqa
+        return {"signature": "C13:exception-after-edit", "what": "rotation of an edited record raised %s" % type(e).__name__}
+    if recutil.deep_snapshot(second) != recutil.deep_snapshot(expect):
+        return {"signature": "C13:rotation-after-edit",
+                "what": "after rotating by %d, editing the record (id, annotations, first feature, tracks) and rotating "
+                        "again by %d the result is not the rotation of the edited record" % (k, k)}
     return None
 
 
